@@ -103,6 +103,21 @@ func genTyped(t *Tape) *Config {
 			}
 		}
 	}
+	// A union-typed parent relation whose member namespaces define the inherited
+	// permission through relations the other one lacks (File.view = owners,
+	// Folder.view = readers, Doc.view = parents.traverse(view)): resolving the
+	// computed relation in the wrong namespace surfaces as a schema error.
+	if t.Bool(1, 4) {
+		user := cfg.NS[0].Name
+		ga := &NSDef{Name: "GA", Rels: []*RelDef{{Name: "owners", Types: []TypeRef{{NS: user}}}, {Name: "view", Rewrite: &Expr{Kind: ExIncludes, Rel: "owners"}}}}
+		gb := &NSDef{Name: "GB", Rels: []*RelDef{{Name: "readers", Types: []TypeRef{{NS: user}}}, {Name: "view", Rewrite: &Expr{Kind: ExIncludes, Rel: "readers"}}}}
+		gc := &NSDef{Name: "GC", Rels: []*RelDef{{Name: "parents", Types: []TypeRef{{NS: "GA"}, {NS: "GB"}}},
+			{Name: "view", Rewrite: &Expr{Kind: ExTraverse, Rel: "parents", Computed: "view", ViaPermits: true}}}}
+		if t.Bool(1, 2) {
+			ga, gb = gb, ga // declaration order
+		}
+		cfg.NS = append(cfg.NS, ga, gb, gc)
+	}
 	return cfg
 }
 
@@ -127,6 +142,13 @@ func conformingStore(t *Tape, cfg *Config) []Tuple {
 	}
 	if len(rels) == 0 {
 		return nil
+	}
+	if cfg.FindNS("GC") != nil {
+		// one object with parents of both kinds, members on either side
+		o := objs("GC")
+		ts = append(ts,
+			Tuple{NS: "GC", Obj: o, Rel: "parents", Sub: Subject{Set: &SetRef{NS: "GA", Obj: objs("GA")}}},
+			Tuple{NS: "GC", Obj: o, Rel: "parents", Sub: Subject{Set: &SetRef{NS: "GB", Obj: objs("GB")}}})
 	}
 	for i := 0; i < n; i++ {
 		x := rels[t.Choose(len(rels))]
